@@ -20,7 +20,7 @@ import ast
 from fractions import Fraction as F
 
 from ..loader import AnalysisError
-from ..pe import PE, PyRaise, Tensor, Obj, Func, Mock, NArr
+from ..pe import PE, PyRaise, Tensor, Obj, Func, Mock, NArr, NpFloat, Unsupported
 from .. import quant, qref, prims
 from ..qir import Fwd, equal_mod_finite
 from ..nf import NF, show
@@ -347,6 +347,22 @@ EXPONENT_ALTS = {
 }
 
 
+NUMPY_SCALAR_ALTS = {
+    "quantized_bits": [("alpha", F(2))],
+    "quantized_linear": [("alpha", F(2))],
+    "binary": [("alpha", F(2))],
+    "ternary": [("alpha", F(2)), ("threshold", F(1, 2))],
+    "stochastic_binary": [("alpha", F(2)), ("temperature", F(4))],
+    "stochastic_ternary": [("temperature", F(4))],
+    "bernoulli": [("alpha", F(2)), ("temperature", F(4))],
+    "quantized_relu": [("negative_slope", F(1, 4))],
+    "quantized_ulaw": [("u", F(100))],
+    "quantized_po2": [("max_value", F(2))],
+    "quantized_relu_po2": [("max_value", F(2)), ("negative_slope", F(1, 4))],
+    "quantized_hswish": [("alpha", F(2))],
+}
+
+
 def printer_roundtrip(rep, repo, mod, cls, kw, varied):
   cfg = "%s(%s)" % (cls, show_kw(kw))
   ci = mod.classes[cls]
@@ -423,6 +439,129 @@ def printer_roundtrip(rep, repo, mod, cls, kw, varied):
   return False
 
 
+def rule_consumers(rep, repo):
+  """R6: the consumers that hand quantizer text on.  Every layer class with
+  a get_quantization_config() is built by its own constructor with quantizer
+  OBJECTS (c13.layer_pe: Keras parents are stand-ins); each entry that names
+  a quantizer / activation must be a string that get_quantizer() parses to
+  the function the layer applies (its `*_internal` quantizer, its
+  activation); autoqkeras.utils.get_quantization_dictionary collects exactly
+  these dictionaries under the layer names."""
+  from .c13 import layer_pe, exported_classes, _same_function
+  mod = repo.module(quant.QMOD)
+  table = exported_classes(repo)
+  n = 0
+  built = []
+  from ..pe import ClassRef
+  for name, ci in sorted(table.items()):
+    if ci.module.name == quant.QMOD:
+      continue
+    cref = ClassRef(ci)
+    owner, fn = ci.find_method("get_quantization_config")
+    if fn is None or name in ("QAdaptiveActivation", "QBidirectional"):
+      continue     # (EMA state / wraps other layers)
+    params = [p for p, _ in ci.init_params()[0]]
+    unit = "%s::%s.get_quantization_config" % (owner.module.relpath,
+                                               owner.name)
+    rep.unit(unit)
+    loc = owner.module.loc(fn)
+    pe = layer_pe(repo, ci, name)
+    kw = {}
+    for i, p in enumerate(q for q in params if q.endswith("_quantizer")):
+      kw[p] = pe.call(pe.lookup_global("quantized_bits", mod), [], dict(
+          bits=3 + i, integer=1, symmetric=1))
+    if "activation" in params:
+      kw["activation"] = pe.call(pe.lookup_global("quantized_relu", mod),
+                                 [], dict(bits=5, integer=2))
+    if "recurrent_activation" in params:
+      kw["recurrent_activation"] = pe.call(
+          pe.lookup_global("quantized_sigmoid", mod), [], dict(bits=6))
+    for p_, v_ in (("units", 4), ("filters", 8), ("kernel_size", 3),
+                   ("pool_size", 2)):
+      if p_ in params:
+        kw[p_] = v_
+    if name.endswith("Batchnorm") and "inverse_quantizer" in kw:
+      del kw["inverse_quantizer"]
+    if name == "QBatchNormalization":
+      kw.pop("inverse_quantizer", None)
+    try:
+      layer = pe.call(cref, [], dict(kw))
+      cfg = pe.call(pe.getattr(layer, "get_quantization_config"), [], {})
+    except (PyRaise, Unsupported) as e:
+      rep.extra.setdefault("consumers_not_interpretable", {})[name] = str(
+          e)[:100]
+      continue
+    entries = cfg if isinstance(cfg, dict) else {"activation": cfg}
+    if name == "QActivation" and not isinstance(cfg, dict):
+      applied = {"activation": layer.attrs.get("quantizer")}
+    else:
+      applied = {}
+      for k in entries:
+        a_ = k + "_internal" if k.endswith("_quantizer") else (
+            k if k in ("activation", "recurrent_activation") else None)
+        if a_ is None:
+          continue
+        try:
+          applied[k] = pe.getattr(layer, a_)   # (a property on RNN layers)
+        except PyRaise:
+          applied[k] = None
+    built.append((name, layer, cfg))
+    for k, q in sorted(applied.items()):
+      text = entries.get(k)
+      inst = "%s.%s" % (name, k)
+      if q is None:
+        rep.check(text == "None", "R6", unit, "entry-for-absent-quantizer",
+                  "%s: no quantizer is applied but the entry is %r" % (
+                      inst, text), loc=loc, instance=inst)
+        continue
+      if not isinstance(text, str):
+        rep.fail("R6", unit, "entry-not-text", "%s is %r" % (inst, text),
+                 loc=loc, instance=inst)
+        continue
+      try:
+        q2 = pe.call(pe.lookup_global("get_quantizer", mod), [text], {})
+      except PyRaise as e:
+        rep.fail("R6", unit, "entry-does-not-parse",
+                 "%s = %r is rejected by get_quantizer: %s" % (inst, text, e),
+                 loc=loc, instance=inst)
+        continue
+      n += 1
+      rep.check(_same_function(pe, q, q2), "R6", unit,
+                "entry-is-not-the-applied-quantizer",
+                "%s = %r parses to a quantizer that differs from the one "
+                "the layer applies" % (inst, text), loc=loc, instance=inst)
+  rep.extra["consumer_entries_reparsed"] = n
+  if n < 20 and not rep.findings:
+    raise AnalysisError("instance-count only %d quantization-config entries "
+                        "could be re-parsed (%s)" % (
+                            n, rep.extra.get("consumers_not_interpretable")))
+  # get_quantization_dictionary
+  au = repo.module("qkeras.autoqkeras.utils")
+  fn = au.functions.get("get_quantization_dictionary")
+  if fn is None:
+    raise AnalysisError("anchor-missing autoqkeras.utils."
+                        "get_quantization_dictionary")
+  unit = "%s::get_quantization_dictionary" % au.relpath
+  rep.unit(unit)
+  layers = []
+  want = {}
+  for i, (name, layer, cfg) in enumerate(built[:6]):
+    layer.attrs["name"] = "layer_%d" % i
+    layers.append(layer)
+    want["layer_%d" % i] = cfg
+  layers.insert(2, Mock("plain keras layer", {"name": "plain"}))
+  pe = PE(repo)
+  try:
+    got = pe.call(pe.lookup_global("get_quantization_dictionary", au),
+                  [Mock("model", {"layers": layers})], {})
+    rep.check(got == want, "R6", unit, "dictionary!=per-layer-configs",
+              "get_quantization_dictionary returns %r, expected the "
+              "get_quantization_config() of every layer that has one under "
+              "the layer's name: %r" % (got, want), loc=au.loc(fn))
+  except PyRaise as e:
+    rep.fail("R6", unit, "raises", "raises %s" % e, loc=au.loc(fn))
+
+
 def run(rep, repo, tier):
   mod = repo.module(quant.QMOD)
   rep.trusted.append("pyparsing subset modelled in qkstat/gram.py "
@@ -439,6 +578,7 @@ def run(rep, repo, tier):
   rep.require_instances("R5", 7)
   rule_getarg(rep, repo)
   rule_literals(rep, repo)
+  rule_consumers(rep, repo)
   n = 0
   for cls in qref.ALL_QUANTIZERS:
     if cls not in mod.classes:
@@ -491,6 +631,16 @@ def run(rep, repo, tier):
       kw2 = dict(base)
       kw2.update(kw)
       printer_roundtrip(rep, repo, mod, cls, kw2, "exponent-notation")
+      n += 1
+    # float-valued options given as numpy scalars (a scale computed from
+    # data, e.g. alpha=np.max(np.abs(w))): str() prints them like python
+    # floats, repr() does not (NumPy >= 2)
+    for p, v in NUMPY_SCALAR_ALTS.get(cls, []):
+      if p not in params:
+        continue
+      kw = dict(base)
+      kw[p] = NpFloat(v)
+      printer_roundtrip(rep, repo, mod, cls, kw, "numpy-scalar:" + p)
       n += 1
     # list-valued options (documented for binary / quantized_bits)
     if "scale_axis" in params and cls in ("binary", "quantized_bits"):
